@@ -250,7 +250,7 @@ def spec_first_non_nan(answers):
 # --------------------------------------------------------------------------------------------------------
 CLAUSES = [
     "value-at-latest-observation", "open-close-boundaries", "adjustment", "missing-cell-ffill",
-    "no-bar-before-t-gives-nan", "row-order-independent", "future-rows-irrelevant", "cache-transparent",
+    "no-bar-before-t-gives-nan", "row-order-independent", "future-rows-irrelevant", "cache-transparent", "instant-not-wall-clock",
     "handler-bid-ask-mid-agree", "multi-source-first-non-nan", "assets-independent", "empty-file",
 ]
 
@@ -429,6 +429,29 @@ def eval_unit(unit, acc, base):
             b, a = _call(sA.get_bid, _TS[i], "EQ:A"), _call(sA.get_ask, _TS[i], "EQ:A")
             acc.check("cache-transparent", _eq(b, ref[i][0]) and _eq(a, ref[i][1]), size, unit,
                       {"step": "requery-desc", "rep": rep, "t": INSTANT_STR[i]}, (b, a), ref[i])
+
+    # the same bars with REPEATED prices (a close equal to an earlier close, an open equal to an earlier open): an observation is
+    # identified by its date and time, never by its value
+    if k >= 3:
+        rep_rows = [[d, (100.0 + (d % 2)) if o is not None else None, (102.0 + (d % 2)) if c is not None else None,
+                     (102.0 + (d % 2)) if a is not None else None] for d, o, c, a in rows]
+        dR = _write_dir(udir, "R", {"A": csv_text(rep_rows, lat)})
+        sR = _source(dR, adjust)
+        rep_spec = [spec_price(rep_rows, adjust, t, lat) for t in INSTANTS]
+        value_checks(_query_all(sR, "EQ:A", lat), "repeated-prices", spec=rep_spec)
+
+    # zone independence: the same INSTANT written in another time zone is the same query (and must not poison later answers)
+    sZ = _source(dA, adjust)
+    for i in range(0, NI, 3):
+        for zone in ("America/New_York", "Asia/Tokyo"):
+            tz = _TS[i].tz_convert(zone)
+            b, a = _call(sZ.get_bid, tz, "EQ:A"), _call(sZ.get_ask, tz, "EQ:A")
+            acc.check("instant-not-wall-clock", _eq(b, ref[i][0]) and _eq(a, ref[i][1]), size, unit,
+                      {"step": "query-in-zone", "zone": zone, "t": INSTANT_STR[i]}, (b, a), ref[i])
+    for i in range(NI):
+        b, a = _call(sZ.get_bid, _TS[i], "EQ:A"), _call(sZ.get_ask, _TS[i], "EQ:A")
+        acc.check("cache-transparent", _eq(b, ref[i][0]) and _eq(a, ref[i][1]), size, unit,
+                  {"step": "utc-after-zoned-queries", "t": INSTANT_STR[i]}, (b, a), ref[i])
 
     # a FRESH source on the same directory whose first pass is DESCENDING must give the answers of the ascending first
     # pass of sA: an answer may not depend on which queries the object answered before (memo with a coarser key than the query)
